@@ -153,7 +153,8 @@ def zm_zoomify(case, ctx):
             bases.append(base)
         else:
             pth = os.path.join(d, f"base{r}.cool")
-            cooler.coarsen_cooler(base, pth, r // b0, chunksize=10 ** 6)
+            cooler.coarsen_cooler(base, pth, r // b0, chunksize=10 ** 6,
+                                  **({"agg": {"count": case["agg"]}} if case.get("agg", "sum") != "sum" else {}))
             bases.append(pth)
     if case.get("tagged"):
         # every base cooler carries something of its own that only a COPY preserves: a constant extra bin column and a metadata
@@ -180,12 +181,15 @@ def zm_zoomify(case, ctx):
                     "-p", str(case["nproc"]), "-o", out]
             for bu in bases[1:]:
                 args += ["--base-uri", bu]
+            if case.get("agg", "sum") != "sum":
+                args += ["--field", "count:agg=" + case["agg"]]          # an aggregate without a dtype
             res = CliRunner().invoke(cli, args)
             if res.exit_code != 0:
                 raise res.exception if isinstance(res.exception, Exception) else RuntimeError(res.output[-200:])
         else:
             cooler.zoomify_cooler(bases if len(bases) > 1 else bases[0], out, list(case["resolutions"]),
-                                  chunksize=case["chunk"], nproc=case["nproc"])
+                                  chunksize=case["chunk"], nproc=case["nproc"],
+                                  **({"agg": {"count": case["agg"]}} if case.get("agg", "sum") != "sum" else {}))
     except Exception as ex:
         return {"err": type(ex).__name__, "msg": str(ex)[:100]}
     listing = cooler.fileops.list_coolers(out)
